@@ -2,6 +2,8 @@ import Tapeverif.Lemmas.Algebra
 import Tapeverif.Lemmas.Codec
 import Tapeverif.Props.C16
 import Tapeverif.Model.Tools
+import Tapeverif.Lemmas.RunInstr
+import Tapeverif.Props.C10
 /-! # C15 — hash- and point-time-locked contracts
 
 What is proved here for all inputs: (1) the deadline a refund arm pushes is read back by
@@ -16,7 +18,7 @@ verdict grid of the property is decided by the model VM on the same inputs as th
 implementation. -/
 namespace TV.C15
 
-open TV.Algebra Tools
+open TV.Algebra Instr Tools
 
 /-- the refund arm's constraint bytes read back (unsigned, as CHECK_TIMESTAMP reads them) as
     the deadline, for every non-negative deadline -/
@@ -89,5 +91,224 @@ example : C16.tsAccept 1010 1000 60 (intToBytes 1010) = true ∧
           C16.tsAccept 1009 1000 60 (intToBytes 1010) = false := by decide
 
 example : (natOfBytesBE (intToBytes (2 ^ 31)) : Int) = 2 ^ 31 := deadline_readback _ (by decide)
+
+/-! ### the HTLC locks (first layout), executed symbolically -/
+
+section htlc
+variable (H : Hashes) (C : Curve)
+
+/-- the acceptance condition of an HTLC lock (first layout), as a function of its inputs:
+    `hx` is the hash of the supplied preimage item -/
+def htlcSpec (cfg : Cfg) (cache : List (CKey × CVal)) (hx digest receiver refund sig : Bytes) (deadline : Int) (flags : Nat)
+    (t thr : Int) (st : List Bytes) : Except Err (List Bytes) :=
+  if (digest == hx) = true then
+    match SigPure.checkSig H C cfg.lim.maxItemSize cache flags sig receiver with
+    | .ok b => .ok (boolBytes b :: st)
+    | .error e => .error (.user e)
+  else if C16.tsAccept t cfg.now thr (intToBytes deadline) = false then .error (.user .see)
+  else
+    match SigPure.checkSig H C cfg.lim.maxItemSize cache flags sig refund with
+    | .ok b => .ok (boolBytes b :: st)
+    | .error e => .error (.user e)
+
+/-- the lock after its hash instruction -/
+def htlcTail (digest receiver refund : Bytes) (deadline : Int) (flags : Nat) : Bytes :=
+  pushB digest ++ (EQUAL ++ (ifElse (pushB receiver) (refundArm deadline refund) ++ CHECK_SIG flags))
+
+theorem htlcLock_bytes (hashOp digest receiver refund : Bytes) (deadline : Int) (flags : Nat) :
+    htlcLock hashOp digest receiver refund deadline flags = hashOp ++ htlcTail digest receiver refund deadline flags := by
+  simp only [htlcLock, htlcTail, List.append_assoc]
+
+set_option maxHeartbeats 1600000 in
+/-- the part of an HTLC lock after the hash instruction, run from a stack `hx :: sig :: st` in a
+    frame whose tape length bound is `len` -/
+theorem htlcTail_run (cfg : Cfg) (hno : cfg.sigExts = []) (hx digest receiver refund sig : Bytes) (deadline : Int)
+    (flags : Nat) (st : List Bytes) (sh : Shared) (fr : Frame) (t thr : Int)
+    (hfrest : fr.rest = htlcTail digest receiver refund deadline flags)
+    (hcap : fr.len0 < fr.cap) (hlen0 : (htlcTail digest receiver refund deadline flags).length < fr.len0)
+    (hd0 : 0 < digest.length) (hd1 : digest.length ≤ 64) (hrc : receiver.length = 32) (hrf : refund.length = 32)
+    (hdl : (intToBytes deadline).length ≤ 64) (hfl : flags < 256)
+    (hs : sh.stack = hx :: sig :: st) (hr : sh.returned = false)
+    (ht : lookupC C16.tsKey sh.cache = some (.atom (.int t))) (hthr : cfg.tsThreshold = some thr)
+    (hsz : 64 ≤ cfg.lim.maxItemSize) (hroom : st.length + 4 ≤ cfg.lim.maxItems) :
+    Ends (instrTable H C cfg) cfg.lim fr sh
+      (fun r => Res.summary r = htlcSpec H C cfg sh.cache hx digest receiver refund sig deadline flags t thr st) := by
+  have hdne : 0 < (intToBytes deadline).length := by
+    have := C10.encode_ne_nil deadline
+    cases h : intToBytes deadline with
+    | nil => exact absurd h this
+    | cons _ _ => simp
+  have hpl : ∀ v : Bytes, 0 < v.length → v.length ≤ 64 → (pushB v).length ≤ v.length + 2 := by
+    intro v h0 h1
+    unfold pushB pushBytes
+    by_cases h : v.length = 1
+    · simp [h, opc]
+    · have : 1 < v.length ∧ v.length < 256 := by omega
+      simp [h, this, opc, natToBytesBE_length]; omega
+  -- lengths of the two IF bodies, for the operand reads and the inline-frame guard
+  have hla : (pushB receiver).length ≤ 34 := by have := hpl receiver (by omega) (by omega); omega
+  have hlr : (refundArm deadline refund).length ≤ 101 := by
+    unfold refundArm
+    have h1 := hpl (intToBytes deadline) hdne hdl
+    have h2 := hpl refund (by omega) (by omega)
+    have : Tools.pushInt deadline = pushB (intToBytes deadline) := rfl
+    rw [this]
+    simp [opc]; omega
+  have hpi : Tools.pushInt deadline = pushB (intToBytes deadline) := rfl
+  have hrestB : refundArm deadline refund = pushB (intToBytes deadline) ++ (opc CTSV ++ pushB refund) := by
+    simp only [refundArm, hpi, List.append_assoc]
+  have htl : (htlcTail digest receiver refund deadline flags).length ≥ (pushB receiver).length + (refundArm deadline refund).length := by
+    simp [htlcTail, ifElse]; omega
+  have hbl_a : (pushB receiver).length < fr.len0 := by omega
+  have hbl_b : (refundArm deadline refund).length < fr.len0 := by omega
+  rw [show fr = { fr with rest := htlcTail digest receiver refund deadline flags } by cases fr; simp_all]
+  unfold htlcTail
+  -- push digest; equal
+  refine Ends.step (fun r h => run_pushB H C cfg _ sh digest _ r hd0 (by omega) rfl hcap hr (by omega) (by rw [hs]; simp; omega) h) ?_
+  dsimp only
+  refine Ends.step (fun r h => run_equal H C cfg _ _ _ digest hx (sig :: st) r rfl hcap hr (by rw [hs]) (by omega) (by simp; omega) h) ?_
+  dsimp only
+  unfold htlcSpec
+  by_cases heq : (digest == hx) = true
+  · -- claim path: the receiver key
+    rw [if_pos heq]
+    refine Ends.step (fun r h => run_ifelse_ok H C cfg _ _ _ _ _ (pushB receiver) (refundArm deadline refund)
+        (boolBytes (digest == hx)) (sig :: st) r rfl (by omega) (by omega) hcap hr rfl
+        (by
+          rw [heq, show truthy (boolBytes true) = true by decide, if_pos rfl]
+          exact run_pushB H C cfg _ _ receiver [] _ (by omega) (by omega) (by simp [inlineFrame]) (by simpa [inlineFrame] using hbl_a)
+            (by simp [copyDict, hr]) (by omega) (by simp [copyDict]; omega) (TSteps.nil rfl))
+        (by simp [copyDict, hr]) h) ?_
+    dsimp only
+    refine ⟨_, run_checksig_last H C cfg hno _ _ flags receiver sig st rfl hfl hcap (by simp [copyDict, hr]) (by simp [copyDict]) (by omega) (by omega), ?_⟩
+    simp only [copyDict]
+    cases SigPure.checkSig H C cfg.lim.maxItemSize sh.cache flags sig receiver <;> rfl
+  · -- refund path: deadline, then the refund key
+    have heq' : (digest == hx) = false := by simpa using heq
+    rw [if_neg heq]
+    by_cases hacc : C16.tsAccept t cfg.now thr (intToBytes deadline) = true
+    · have hacc' : ¬ (C16.tsAccept t cfg.now thr (intToBytes deadline) = false) := by simp [hacc]
+      rw [if_neg hacc']
+      refine Ends.step (fun r h => run_ifelse_ok H C cfg _ _ _ _ _ (pushB receiver) (refundArm deadline refund)
+          (boolBytes (digest == hx)) (sig :: st) r rfl (by omega) (by omega) hcap hr rfl
+          (by
+            rw [heq', show truthy (boolBytes false) = false by decide]
+            simp only [Bool.false_eq_true, ↓reduceIte]
+            refine run_pushB H C cfg _ _ (intToBytes deadline) (opc CTSV ++ pushB refund) _ hdne (by omega) (by simp [inlineFrame, hrestB])
+              (by simpa [inlineFrame] using hbl_b) (by simp [copyDict, hr]) (by omega) (by simp [copyDict]; omega) ?_
+            try dsimp only
+            refine run_ctsv_ok H C cfg _ _ (pushB refund) (intToBytes deadline) (sig :: st) t thr _ rfl
+              (by simpa [inlineFrame] using hbl_b) (by simp [copyDict, hr]) (by simp [copyDict]) (C10.encode_ne_nil deadline)
+              (by simpa [copyDict] using ht) hthr (by omega) (by simp; omega) hacc ?_
+            dsimp only
+            exact run_pushB H C cfg _ _ refund [] _ (by omega) (by omega) (by simp)
+              (by simpa [inlineFrame] using hbl_b) (by simp [copyDict, hr]) (by omega) (by simp [copyDict]; omega) (TSteps.nil rfl))
+          (by simp [copyDict, hr]) h) ?_
+      dsimp only
+      refine ⟨_, run_checksig_last H C cfg hno _ _ flags refund sig st rfl hfl hcap (by simp [copyDict, hr]) (by simp [copyDict]) (by omega) (by omega), ?_⟩
+      simp only [copyDict]
+      cases SigPure.checkSig H C cfg.lim.maxItemSize sh.cache flags sig refund <;> rfl
+    · have hacc' : C16.tsAccept t cfg.now thr (intToBytes deadline) = false := by simpa using hacc
+      rw [if_pos hacc']
+      refine ⟨_, run_ifelse_err H C cfg _ _ _ _ (pushB receiver) (refundArm deadline refund)
+          (boolBytes (digest == hx)) (sig :: st) (.user .see) rfl (by omega) (by omega) hcap hr rfl (by decide)
+          (by
+            rw [heq', show truthy (boolBytes false) = false by decide]
+            simp only [Bool.false_eq_true, ↓reduceIte]
+            refine run_pushB H C cfg _ _ (intToBytes deadline) (opc CTSV ++ pushB refund) _ hdne (by omega) (by simp [inlineFrame, hrestB])
+              (by simpa [inlineFrame] using hbl_b) (by simp [copyDict, hr]) (by omega) (by simp [copyDict]; omega) ?_
+            try dsimp only
+            exact run_ctsv_fail H C cfg _ _ (pushB refund) (intToBytes deadline) (sig :: st) t thr rfl
+              (by simpa [inlineFrame] using hbl_b) (by simp [copyDict, hr]) (by simp [copyDict]) (C10.encode_ne_nil deadline)
+              (by simpa [copyDict] using ht) hthr (by omega) (by simp; omega) hacc'), ?_⟩
+      rfl
+
+
+/-- deadlines below 2^62 (any realistic UNIX time plus timeout) encode in at most 9 bytes -/
+theorem deadline_len (d : Int) (h0 : 0 ≤ d) (h1 : d < 2 ^ 62) : (intToBytes d).length ≤ 64 := by
+  rw [intToBytes_length]
+  have hneg : ¬ d < 0 := by omega
+  simp only [hneg, ↓reduceIte]
+  have hb : (if d.natAbs = 0 then 1 else bitLength d.natAbs) ≤ 62 := by
+    split
+    · omega
+    · next hne =>
+      have h2 := two_pow_le_of_bitLength d.natAbs hne
+      have h3 : d.natAbs < 2 ^ 62 := by omega
+      have := lt_pow_of_pow_le_lt h2 h3
+      omega
+  generalize (if d.natAbs = 0 then 1 else bitLength d.natAbs) = nb at *
+  split <;> omega
+
+/-- **C15, SHA-256 HTLC (first layout): exact outcome.** -/
+theorem htlcSha256Lock_run (cfg : Cfg) (hno : cfg.sigExts = []) (hH : ∀ x, (H.sha256 x).length = 32)
+    (x digest receiver refund sig : Bytes) (deadline : Int) (flags : Nat) (st : List Bytes) (sh : Shared) (count : Nat) (t thr : Int)
+    (hd0 : 0 < digest.length) (hd1 : digest.length ≤ 64) (hrc : receiver.length = 32) (hrf : refund.length = 32)
+    (hdl0 : 0 ≤ deadline) (hdl1 : deadline < 2 ^ 62) (hfl : flags < 256)
+    (hs : sh.stack = x :: sig :: st) (hr : sh.returned = false)
+    (ht : lookupC C16.tsKey sh.cache = some (.atom (.int t))) (hthr : cfg.tsThreshold = some thr)
+    (hsz : 64 ≤ cfg.lim.maxItemSize) (hroom : st.length + 4 ≤ cfg.lim.maxItems) :
+    Ends (instrTable H C cfg) cfg.lim (topFrame (htlcLock SHA256 digest receiver refund deadline flags) count) sh
+      (fun r => Res.summary r = htlcSpec H C cfg sh.cache (H.sha256 x) digest receiver refund sig deadline flags t thr st) := by
+  rw [htlcLock_bytes]
+  unfold topFrame
+  have hlen : (SHA256 ++ htlcTail digest receiver refund deadline flags).length = (htlcTail digest receiver refund deadline flags).length + 1 := by
+    simp [SHA256, opc]
+  refine Ends.step (fun r h => run_sha256 H C cfg _ sh _ x (sig :: st) r rfl (by simp) hr hs (by rw [hH]; omega) (by simp; omega) h) ?_
+  dsimp only
+  exact htlcTail_run H C cfg hno (H.sha256 x) digest receiver refund sig deadline flags st _ _ t thr rfl (by simp) (by simp [hlen])
+    hd0 hd1 hrc hrf (deadline_len deadline hdl0 hdl1) hfl rfl hr ht hthr hsz hroom
+
+/-- **C15, SHAKE-256 HTLC (first layout): exact outcome.** -/
+theorem htlcShake256Lock_run (cfg : Cfg) (hno : cfg.sigExts = []) (n : Nat) (hn : n ≤ 64) (hH : ∀ x, (H.shake256 x n).length = n)
+    (x digest receiver refund sig : Bytes) (deadline : Int) (flags : Nat) (st : List Bytes) (sh : Shared) (count : Nat) (t thr : Int)
+    (hd0 : 0 < digest.length) (hd1 : digest.length ≤ 64) (hrc : receiver.length = 32) (hrf : refund.length = 32)
+    (hdl0 : 0 ≤ deadline) (hdl1 : deadline < 2 ^ 62) (hfl : flags < 256)
+    (hs : sh.stack = x :: sig :: st) (hr : sh.returned = false)
+    (ht : lookupC C16.tsKey sh.cache = some (.atom (.int t))) (hthr : cfg.tsThreshold = some thr)
+    (hsz : 64 ≤ cfg.lim.maxItemSize) (hroom : st.length + 4 ≤ cfg.lim.maxItems) :
+    Ends (instrTable H C cfg) cfg.lim (topFrame (htlcLock (SHAKE256 n) digest receiver refund deadline flags) count) sh
+      (fun r => Res.summary r = htlcSpec H C cfg sh.cache (H.shake256 x n) digest receiver refund sig deadline flags t thr st) := by
+  rw [htlcLock_bytes]
+  unfold topFrame
+  have hlen : (SHAKE256 n ++ htlcTail digest receiver refund deadline flags).length = (htlcTail digest receiver refund deadline flags).length + 2 := by
+    simp [SHAKE256, opc]
+  refine Ends.step (fun r h => run_shake256 H C cfg _ sh _ n x (sig :: st) r rfl (by omega) (by simp) hr hs (by rw [hH]; omega) (by simp; omega) h) ?_
+  dsimp only
+  exact htlcTail_run H C cfg hno (H.shake256 x n) digest receiver refund sig deadline flags st _ _ t thr rfl (by simp) (by simp [hlen])
+    hd0 hd1 hrc hrf (deadline_len deadline hdl0 hdl1) hfl rfl hr ht hthr hsz hroom
+
+/-- **C15, HTLC claim and refund paths are exact.** The outcome `htlcSpec` is the verdict `[ff]`
+    exactly when: the supplied item hashes to the digest and the signature passes C02 under the
+    receiver key (at any time); or it does not hash to the digest, `t ≥ deadline`, `t` is not ahead
+    of the clock by the slack or more, and the signature passes C02 under the refund key. -/
+theorem htlcSpec_accepts_iff (cfg : Cfg) (cache : List (CKey × CVal)) (hx digest receiver refund sig : Bytes) (deadline : Int)
+    (flags : Nat) (t thr : Int) (hdl0 : 0 ≤ deadline) :
+    htlcSpec H C cfg cache hx digest receiver refund sig deadline flags t thr [] = .ok [[0xff]] ↔
+      ((digest = hx ∧ SigPure.checkSig H C cfg.lim.maxItemSize cache flags sig receiver = .ok true) ∨
+       (digest ≠ hx ∧ deadline ≤ t ∧ (thr ≤ 0 ∨ t - cfg.now < thr) ∧
+          SigPure.checkSig H C cfg.lim.maxItemSize cache flags sig refund = .ok true)) := by
+  unfold htlcSpec
+  rw [refund_time_condition t cfg.now thr deadline hdl0]
+  by_cases heq : digest = hx
+  · subst heq
+    simp only [beq_self_eq_true, ↓reduceIte, true_and, ne_eq, not_true_eq_false, false_and, or_false]
+    cases SigPure.checkSig H C cfg.lim.maxItemSize cache flags sig receiver with
+    | error e => simp
+    | ok b => cases b <;> simp [boolBytes]
+  · have hb : (digest == hx) = false := by simpa using heq
+    simp only [hb, Bool.false_eq_true, ↓reduceIte, heq, false_and, false_or, ne_eq, not_false_eq_true, true_and]
+    by_cases hw : deadline ≤ t ∧ (thr ≤ 0 ∨ t - cfg.now < thr)
+    · simp only [hw, decide_true, Bool.true_eq_false, ↓reduceIte, and_self, true_and]
+      cases SigPure.checkSig H C cfg.lim.maxItemSize cache flags sig refund with
+      | error e => simp
+      | ok b => cases b <;> simp [boolBytes]
+    · simp only [hw, decide_false, ↓reduceIte]
+      constructor
+      · intro h; cases h
+      · intro ⟨h1, h2, _⟩; exact absurd ⟨h1, h2⟩ hw
+
+
+end htlc
 
 end TV.C15
